@@ -271,7 +271,7 @@ CHECKS["C14"] = {
 }
 
 CHECKS["C20"] = {
-    "specs": [("bind", "main", 2000, 80000)],
+    "specs": [("bind", "main", 2000, 80000), ("bind", "scripted", 2000, 80000)],
     "budget": (150, 1800),
     "rule": "one run = one of the five supported pairings (RND->CTL, DHW->CTL, CO2->FAN itho, REM->FAN nuaire, DIS->FAN orcon, with their "
             "code lists, idx and 10E0 addenda) between two real Gateways (faked supplicant / faked respondent) on one virtual loop and one "
@@ -286,8 +286,11 @@ CHECKS["C20"] = {
     "real": ["ramses_rf.binding_fsm (BindContext*, all states)", "device/base.py Fakeable", "dispatcher routing of 1FC9/10E0", "Command.put_bind",
              "QoS send path with BINDING_QOS (impersonation alert, retries)", "two ramses_rf.Gateway + PortTransport each"],
     "stub": STUB_RF + ["third-party binding frames written from the corpus examples"],
-    "assumptions": ["both roles run the library's code (no scripted supplicant/respondent yet); the respondent is made Fakeable the way the "
-                    "repository's tests do", "a frame delayed by more than 30 ms may be overtaken by the next one: such runs are judged for "
+    "assumptions": ["scenario main: both roles run the library's code; scenario scripted: one side is a scripted RF device (1-3 copies of each "
+                    "frame 0-300 ms apart, replies 15 ms .. 5.2 s after the frame they answer, an Orcon-style offer addressed to 63:262142, a "
+                    "straggling copy of the offer after our accept) and the real side's tuple must be the handshake that was on the air; the "
+                    "respondent is made Fakeable the way the repository's tests do", "a scripted reply never precedes the echo of the frame it "
+                    "answers (the dongle's echo takes 10 ms, a real reply more)", "a frame delayed by more than 30 ms may be overtaken by the next one: such runs are judged for "
                     "termination and clean-up, not for success", "a third party that competes in the same handshake (its offer while the "
                     "respondent listens, its accept/confirm addressed to our devices) may win by design: not judged for tuple equality"],
 }
